@@ -77,11 +77,17 @@ def main(argv=None):
     ap.add_argument("--no-write", action="store_true")
     a = ap.parse_args(argv)
     if a.replay:
+        # re-evaluate exactly the recorded rule instances against the current tree
         with open(a.replay) as f:
             body = json.load(f)
-        print("replaying %d recorded violation(s) of %s against %s" % (len(body.get("violations", [])), a.prop, a.repo or repo_root()))
-        for v in body.get("violations", []):
-            print("  recorded: %s" % json.dumps(v.get("where")))
+        want = {(v["rule"], v["where"].get("function"), v["where"].get("construct")) for v in body.get("violations", [])}
+        code, rep = run_property(body.get("property", a.prop), a.tier, write=False, root=a.repo)
+        now = {(i.rule, (i.where or {}).get("function"), (i.where or {}).get("construct")) for i in rep.instances if i.verdict == "VIOLATION"}
+        again = want & now
+        print("replay: %d of %d recorded violation(s) reproduce on %s" % (len(again), len(want), a.repo or repo_root()))
+        for k in sorted(again, key=str):
+            print("  reproduces: %s — %s [%s]" % (k[1], k[2], k[0]))
+        return 1 if again else 0
     if a.prop == "all":
         worst = 0
         for p in PROPS:
